@@ -29,7 +29,9 @@ PINS = {
             ("servermap_got_signature_one_share", SERVERMAP, "ServermapUpdater", "_got_signature_one_share"),
             ("servermap_try_to_set_pubkey", SERVERMAP, "ServermapUpdater", "_try_to_set_pubkey"),
             ("servermap_got_results", SERVERMAP, "ServermapUpdater", "_got_results"),
-            ("servermap_got_corrupt_share", SERVERMAP, "ServermapUpdater", "_got_corrupt_share")],
+            ("servermap_got_corrupt_share", SERVERMAP, "ServermapUpdater", "_got_corrupt_share"),
+            ("filenode_download_best_version", FILENODE, "MutableFileNode", "_download_best_version"),
+            ("retrieve_mark_bad_share", RETRIEVE, "Retrieve", "_mark_bad_share")],
     "C11": [("servermap_highest_seqnum", SERVERMAP, "ServerMap", "highest_seqnum"),
             ("servermap_shares_available", SERVERMAP, "ServerMap", "shares_available"),
             ("servermap_recoverable_versions", SERVERMAP, "ServerMap", "recoverable_versions"),
